@@ -150,18 +150,22 @@ def run(ctx):
 def _filter_frame(ctx, py):
     src = textwrap.dedent(inspect.getsource(py.filters.run_feedback_filter))
     fn = ast.parse(src).body[0]
+    created = [n for n in ast.walk(fn) if isinstance(n, ast.Assign) and isinstance(n.targets[0], ast.Name) and isinstance(n.value, ast.Call)
+               and ast.unparse(n.value.func).endswith("Integrator")]
+    var = created[0].targets[0].id if len(created) == 1 else None
     calls = [n for n in ast.walk(fn) if isinstance(n, ast.Call) and isinstance(n.func, ast.Attribute)
-             and isinstance(n.func.value, ast.Name) and n.func.value.id == "integrator"]
+             and isinstance(n.func.value, ast.Name) and n.func.value.id == var]
     methods = sorted({c.func.attr for c in calls})
-    ok_m = set(methods) <= {"get_time", "get_pva", "predict", "integrate", "set_pva"}
+    ok_m = var is not None and set(methods) <= {"get_time", "get_pva", "predict", "integrate", "set_pva"}
     sets = [c for c in calls if c.func.attr == "set_pva"]
-    ok_s = all(ast.unparse(c.args[0]).replace(" ", "").replace("\n", "").startswith("error_model.correct_pva(integrator.get_pva(),") for c in sets)
+    ok_s = all(ast.unparse(c.args[0]).replace(" ", "").replace("\n", "").startswith("error_model.correct_pva(%s.get_pva()," % var) for c in sets)
     stores = [n for n in ast.walk(fn) if isinstance(n, (ast.Attribute, ast.Subscript)) and isinstance(n.ctx, ast.Store)
-              and "integrator" in ast.unparse(n)]
-    created = [n for n in ast.walk(fn) if isinstance(n, ast.Assign) and getattr(n.targets[0], "id", "") == "integrator"]
-    ok_c = len(created) == 1 and ast.unparse(created[0].value).replace(" ", "") == "strapdown.Integrator(initial_pva,with_altitude)"
+              and any(isinstance(x, ast.Name) and x.id == var for x in ast.walk(n))]
+    params = [a.arg for a in fn.args.args]
+    ok_c = (len(created) == 1 and len(created[0].value.args) == 2 and ast.unparse(created[0].value.args[0]) == params[0]
+            and ast.unparse(created[0].value.args[1]) == "with_altitude")
     ctx.ob("C13.filter.integrator_writes", "f", ok_m and ok_s and not stores and ok_c, "ast-frame", 0.0,
-           "integrator created as Integrator(initial_pva, with_altitude); methods used: %s; set_pva argument is correct_pva(get_pva(), .); no attribute/item stores on it" % methods,
+           "integrator created once as Integrator(<initial pva argument>, with_altitude); methods used: %s; set_pva argument is correct_pva(get_pva(), .); no attribute/item stores on it" % methods,
            cex=None if (ok_m and ok_s and not stores and ok_c) else dict(methods=methods, set_pva_args=[ast.unparse(c.args[0]) for c in sets], stores=[ast.unparse(s_) for s_ in stores]))
 
 
